@@ -112,6 +112,7 @@ def run_case(case):
         a, ma = build(case["a"])
         n = len(ma)
         same(a, ma, "ctor[%s]" % case["a"][2])
+        _operands = [(a, list(ma), "first operand")]
         if op == "roundtrip":
             if int(a) != to_int(ma):
                 raise Violation("int(): %d vs %d" % (int(a), to_int(ma)), "int")
@@ -216,6 +217,7 @@ def run_case(case):
                     cur, mcur = cur >> sh, ([0] * sh + mcur)[:nn]
                 elif k in ("and", "or", "xor", "concat"):
                     o, mo = build(st_[1])
+                    _operands.append((o, list(mo), "operand of chain step %d" % i))
                     if k == "concat":
                         cur, mcur = cur + o, mcur + mo
                     else:
@@ -242,11 +244,13 @@ def run_case(case):
                 else:
                     raise ValueError(k)
                 same(cur, mcur, "chain step %d (%s)" % (i, k))
+                _operands.append((cur, list(mcur), "result of chain step %d (an operand of the next)" % i))
                 if str(cur) != "".join(str(x) for x in mcur) or list(cur) != [bool(x) for x in mcur]:
                     raise Violation("chain step %d (%s): str/iter of the intermediate result differ from the model" % (i, k), "chain:str_iter")
         elif op in BINARY:
             b, mb = build(case["b"])
             same(b, mb, "ctor[%s]" % case["b"][2])
+            _operands.append((b, list(mb), "second operand"))
             m = max(len(ma), len(mb))
             za, zb = zext(ma, m), zext(mb, m)
             if op == "and":
@@ -277,6 +281,11 @@ def run_case(case):
             same(Bitset(raw), bits_of(v, v.bit_length()), "ctor[bytes,nolen]")
         else:
             raise ValueError(op)
+        # bit strings are values: no operation may change an operand it was given (value, length, text)
+        for obj, mbits, what in _operands:
+            same(obj, mbits, "%s after %s" % (what, op))
+            if str(obj) != "".join(str(x) for x in mbits):
+                raise Violation("%s after %s: str() differs from the model" % (what, op), "operand_changed:str")
     except Violation:
         raise
     except Exception as e:
